@@ -100,6 +100,8 @@ def visiting(rep, spec, py, init=None):
 		bad += [x for x in simlib.oracle_C01(spec, py['trace'], init) if 'orders in transit to the supplier' in x]
 		# "orders": the quantity a node orders in the order phase is the one its documented policy prescribes for the position it observes
 		bad += simlib.oracle_C04(spec, py['trace'], init)
+		# "... then costs": every cost component reported for a period is the documented function of the state reported for that period
+		bad += simlib.oracle_C05(spec, py['trace'])[0]
 	if bad:
 		rep.diff('sim-trace-full', 'documented sequence of events violated on the real code: ' + '; '.join(bad[:3]), spec, py={'oseq': py['oseq'], 'sseq': py['sseq']}, oracle=True, theorem=THEOREM)
 
@@ -110,6 +112,21 @@ def run(rep, drv):
 				'Lean reference model on random single-product trees/DAGs (<=%d nodes); 6 Python-vs-Python variants per case; non-trivial = '
 				'some positive backorder' % (8 if th else 5))
 	rng = random.Random(rep.seed * 1000003 + 6)
+	# corpus first: lumpy ordering around disruptions -- an (s,S) or (r,Q) customer that orders nothing in the period in which its shipment pause
+	# (or its supplier's order pause) ends; a pause that starts in the first period; pauses on both nodes
+	def ns(policy, slt, olt, ext, demand, dis, il):
+		return {'slt': slt, 'olt': olt, 'policy': policy, 'cap': None, 'h': '1', 'p': '4' if demand else None, 'ht': None, 'rev': None, 'initIL': core.fr(il), 'initOrders': None,
+				'initShipments': None, 'ext_supply': ext, 'demand': demand, 'dis': dis}
+	for cust_pol, dis_t, dis_list, slt in tuple(({'t': 'sS', 'a': '4', 'b': '20'}, 'SP', [i_ == d_ for i_ in range(12)], 1) for d_ in (3, 4, 5, 6, 7)) + tuple(({'t': 'rQ', 'a': '5', 'b': '12'}, 'SP', [i_ in (d_, d_ + 1) for i_ in range(12)], 1) for d_ in (3, 4, 5)) + (({'t': 'sS', 'a': '4', 'b': '20'}, 'SP', [False] * 4 + [True] + [False] * 7, 1), ({'t': 'rQ', 'a': '5', 'b': '12'}, 'SP', [False, True, True] + [False] * 9, 1),
+											({'t': 'sS', 'a': '2', 'b': '15'}, 'SP', [True, False, False, True, True, False] + [False] * 6, 0), ({'t': 'sS', 'a': '4', 'b': '20'}, 'RP', [False] * 3 + [True, True] + [False] * 7, 2),
+											({'t': 'rQ', 'a': '5', 'b': '12'}, 'TP', [False, False, True] + [False] * 9, 2), ({'t': 'sS', 'a': '4', 'b': '20'}, 'OP', [False, True] * 6, 1)):
+		spec = {'kind': 'serial', 'labels': [2, 1], 'edges': [[2, 1]], 'T': 12, 'nodes': {
+			'2': ns({'t': 'BS', 'a': '100'}, 1, 0, True, None, None, 100),
+			'1': ns(cust_pol, slt, 0, False, ['3'], {'type': dis_t, 'list': dis_list}, 20)}}
+		rep.count('corpus:lumpy-orders-around-a-pause')
+		r = simstream.one_case(rep, drv, 'sim-trace-full', spec, None, None, THEOREM)
+		if r is not None:
+			visiting(rep, spec, r[0], r[2])
 	for k in range(1500 if th else 150):
 		spec = simlib.gen_spec(rng, th)
 		r = simstream.one_case(rep, drv, 'sim-trace-full', spec, None, None, THEOREM)
